@@ -247,6 +247,22 @@ def check_linear_impls(ctx):
             ok = b[0] == "field" and peel(b[1], ()) == ("param", 1)
         ctx.check(ok, "R10.6", "Linear::gene_mut/%s=get_mut(index)-on-gene-vector" % f.id.split(" as ")[0].split("::")[-1].strip("<>"), short(r, 3), f.at())
     ctx.floor("R10.6", n, 6, "Linear::size / gene_mut impls")
+    # IntoIterator of the workspace genomes hands out the gene vector's own iterator (front to back, every gene once)
+    m = 0
+    for f in ctx.trait_impl_fns("std::iter::IntoIterator::into_iter"):
+        who = f.id.split(" as ")[0].lstrip("<")
+        if not any(who.endswith(t) for t in ("genome::bitstring::Bitstring", "genome::vector::Vector<T>", "genome::plushy::Plushy")):
+            continue
+        m += 1
+        ps = return_paths(ctx.paths(f))
+        r = ps[0].ret if len(ps) == 1 else ("unknown",)
+        ok = callee_is(r, "IntoIterator::into_iter", "[T]::iter", "[T]::iter_mut", "Vec::into_iter") and len(r[3]) == 1 and len(ps[0].calls()) <= 2
+        if ok:
+            b = peel(r[3][0], ("DerefMut::deref_mut", "Deref::deref"))
+            ok = b[0] == "field" and peel(b[1], ()) == ("param", 1)
+        ctx.check(ok, "R10.6", "IntoIterator/%s=iterator-of-the-gene-vector" % who.replace("ec_linear::genome::", "").replace("push::genome::", ""), short(r, 3), f.at(),
+                  bad_detail="into_iter of a genome must be the gene vector's own iterator (no rev/skip/filter/other adaptor); extracted " + short(r, 6))
+    ctx.floor("R10.6", m, 5, "IntoIterator impls of Bitstring / Vector / Plushy")
 
 
 def check_bitstring_and_audit(ctx):
